@@ -1582,21 +1582,18 @@ Proof.
     + eapply W1; eauto.
   - (* ALost *)
     destruct (nth_error (a_cls s) c) as [cl|] eqn:Hc; [|discriminate]. injection HR as <- _.
-    assert (Hkeep : forall c' k', pending s c' k' -> c' <> c ->
-              pend (filter (fun e => negb (Nat.eqb (fst e) c)) (a_track s)) (filter (fun e => negb (Nat.eqb (fst e) c)) (a_infl s)) c' k').
-    { intros c' k' [H|H] N; [left|right]; apply filter_In; (split; [exact H|]); cbn [fst]; apply negb_true_iff, Nat.eqb_neq; exact N. }
     constructor; unfold pending; cbn [a_cls a_gets a_track a_infl].
     + intros c' cl' k x Hc' Hin. rewrite nth_error_upd in Hc'. destruct (Nat.eqb_spec c c') as [<-|N].
       * destruct (Nat.ltb c (length (a_cls s))); [|discriminate]. injection Hc' as <-. destruct Hin.
-      * apply Hkeep; [eapply W1; eauto|congruence].
+      * eapply W1; eauto.
     + intros gi g0 Hg0 Ha. rewrite nth_error_map in Hg0. destruct (nth_error (a_gets s) gi) as [g1|] eqn:Hg1; [|discriminate].
       injection Hg0 as <-. destruct (close_all_fields c g1) as (Ek & Es & Ec). rewrite Es in Ha. rewrite Ec, Ek.
       unfold close_all_waits. destruct (Nat.eqb_spec (g_cl g1) c) as [E|N]; cbn [set_flags g_wait_closed]; [left; reflexivity|].
-      destruct (W2 gi g1 Hg1 Ha) as [H|H]; [left; exact H|right; apply Hkeep; assumption].
+      eapply W2; eauto.
     + intros gi g0 ph Hg0 Ha. rewrite nth_error_map in Hg0. destruct (nth_error (a_gets s) gi) as [g1|] eqn:Hg1; [|discriminate].
       injection Hg0 as <-. destruct (close_all_fields c g1) as (Ek & Es & Ec). rewrite Es in Ha. rewrite Ec.
       unfold close_all_waits. destruct (Nat.eqb_spec (g_cl g1) c) as [E|N]; cbn [set_flags g_ph_closed]; [left; reflexivity|].
-      destruct (W3 gi g1 ph Hg1 Ha) as [H|H]; [left; exact H|right; apply Hkeep; assumption].
+      eapply W3; eauto.
   - (* ARefresh *)
     destruct (nth_error (a_cls s) c) as [cl|] eqn:Hc; [|discriminate].
     destruct (cl_id cl) as [id|]; [|discriminate]. injection HR as <- _.
